@@ -31,12 +31,22 @@ const (
 
 type crawlGen struct {
 	*Gen
-	o        CrawlOpts
-	shared   []string // asset URLs shared across seeds
-	sharedR  map[string]*Resource
-	reliable bool // the page being built is certainly fetched with status 200
-	rowN     int
-	exclHost string
+	o         CrawlOpts
+	shared    []string // asset URLs shared across seeds
+	sharedR   map[string]*Resource
+	sharedOut []string // outlink targets referenced from several hub pages
+	cfg       *Cfg
+	reliable  bool // the page being built is certainly fetched with status 200
+	rowN      int
+	exclHost  string
+}
+
+// followed is the expectation for the target of a single redirect from an asset.
+func (c *crawlGen) followed() string {
+	if c.cfg != nil && c.cfg.MaxRedirect == 0 {
+		return Never
+	}
+	return Must
 }
 
 func (c *crawlGen) row(value string) QRow {
@@ -103,7 +113,7 @@ func (c *crawlGen) framing(r *Response) {
 // asset adds one asset under page (host) and returns the HTML snippet referencing it.
 func (c *crawlGen) asset(host, owner string, level int, maxRetry int, seencheck bool) string {
 	name := c.Name("a")
-	kind := c.N(13)
+	kind := c.N(16)
 	if !c.o.Faults && (kind == 9 || kind == 10) {
 		kind = 0
 	}
@@ -168,6 +178,28 @@ func (c *crawlGen) asset(host, owner string, level int, maxRetry int, seencheck 
 		return c.Pick(`<img src="javascript:void(0)">`, `<img src="data:image/png;base64,AAAA">`, `<img src="http://nodot/x.png">`,
 			`<img src="mailto:a@b.example">`, `<img src="ftp://`+host+`/x.png">`, `<img src="http://localhost/x.png">`, `<img src="http://127.0.0.1/x.png">`,
 			`<img src="http://archive.org/services/img/x.png">`, `<img src="">`)
+	case 13: // asset that redirects to a fresh asset
+		p := "/moved/" + name + ".png"
+		tp := "/final/" + name + ".png"
+		r := c.res(host, p, owner, level, Must, Redirect(c.PickInt(301, 302, 307), tp))
+		r.Tags["asset-redirect"] = "1"
+		c.res(host, tp, owner, level, c.followed(), OK("image/png", Bin(77, c.Uid()))).Tags["chain"] = "1"
+		return `<img src="` + p + `">`
+	case 14: // two assets, one of which redirects to the other: the target must be fetched once
+		tp := "/lib/" + name + ".js"
+		p := "/old/" + name + ".js"
+		rt := c.res(host, tp, owner, level, Must, OK("application/javascript", Lit("var l=1;")))
+		rt.Tags["once"] = "1"
+		c.res(host, p, owner, level, Must, Redirect(301, tp))
+		return `<script src="` + tp + `"></script><script src="` + p + `"></script>`
+	case 15: // asset that redirects out of scope, next to a sibling that redirects normally
+		p := "/gone/" + name + ".png"
+		c.res(host, p, owner, level, Must, Redirect(302, "http://archive.org/wayback/"+name+".png"))
+		p2 := "/moved2/" + name + ".css"
+		tp2 := "/final2/" + name + ".css"
+		c.res(host, p2, owner, level, Must, Redirect(301, tp2))
+		c.res(host, tp2, owner, level, c.followed(), OK("text/css", Lit("a{}"))).Tags["chain"] = "1"
+		return `<img src="` + p + `"><link rel="stylesheet" href="` + p2 + `">`
 	default: // shared across seeds
 		if len(c.shared) == 0 || c.Chance(1, 3) {
 			h := c.Host()
@@ -222,7 +254,10 @@ func (c *crawlGen) page(host, path, owner string, nAssets int, cfg *Cfg, outlink
 // seed adds one seed of a randomly chosen shape and returns its queue row(s).
 func (c *crawlGen) seed(cfg *Cfg) []QRow {
 	host := c.Host()
-	shape := c.N(14)
+	shape := c.N(15)
+	if !c.o.Adversarial && shape == 14 {
+		shape = 13
+	}
 	if c.o.NoBadSeeds && (shape == 8 || shape == 9 || shape == 10) {
 		shape = 1
 	}
@@ -231,6 +266,9 @@ func (c *crawlGen) seed(cfg *Cfg) []QRow {
 	}
 	if !c.o.Hops && shape == 12 {
 		shape = 1
+	}
+	if c.o.Hops && cfg.MaxHops > 0 && c.Chance(1, 3) {
+		shape = 12 // pages with outlinks matter whenever hops are allowed
 	}
 	maxAssets := 7
 	if c.o.Small {
@@ -317,6 +355,12 @@ func (c *crawlGen) seed(cfg *Cfg) []QRow {
 		v := URL(host, p)
 		var outs []string
 		n := 1 + c.N(3)
+		if c.Chance(1, 3) {
+			n = 4 + c.N(8) // more outlinks than any stage channel can buffer
+		}
+		if len(c.sharedOut) > 0 && c.Chance(1, 2) {
+			outs = append(outs, c.sharedOut[c.N(len(c.sharedOut))])
+		}
 		for i := 0; i < n; i++ {
 			op := "/" + c.Name("leaf") + ".html"
 			exp := Never
@@ -325,10 +369,57 @@ func (c *crawlGen) seed(cfg *Cfg) []QRow {
 			}
 			c.res(host, op, "", 0, exp, OK("text/html", Lit("<html><body>leaf "+c.Name("l")+"</body></html>"))).Tags["outlink-of"] = v
 			outs = append(outs, op)
+			if i == 0 {
+				c.sharedOut = append(c.sharedOut, URL(host, op))
+			}
+		}
+		if len(outs) > 0 && c.Chance(1, 2) {
+			outs = append(outs, outs[c.N(len(outs))]) // the same link twice on one page
 		}
 		c.reliable = true
 		c.page(host, p, v, c.N(3), cfg, outs)
 		c.reliable = false
+		return []QRow{c.row(v)}
+	case 14: // endlessly nested JSON resources, optionally each behind a redirect: only three levels below the page may be fetched
+		p := "/" + c.Name("deep") + "/index.html"
+		v := URL(host, p)
+		viaRedirect := c.Chance(1, 2) && cfg.MaxRedirect >= 1
+		depth := 5 + c.N(3)
+		first := ""
+		for lvl := 1; lvl <= depth; lvl++ {
+			np := fmt.Sprintf("/nest/%s-n%d.json", c.Name("z"), lvl)
+			if lvl == 1 {
+				first = np
+			}
+			_ = np
+		}
+		// build from the deepest level upwards so that each document can name the next one
+		next := ""
+		names := make([]string, depth+2)
+		for lvl := depth; lvl >= 1; lvl-- {
+			np := fmt.Sprintf("/nest/%s-n%d.json", c.Name("z"), lvl)
+			names[lvl] = np
+			body := `{"leaf":true}`
+			if next != "" {
+				body = `{"next":"` + URL(host, next) + `","n":` + fmt.Sprint(lvl) + `}`
+			}
+			exp := Must
+			if lvl > 3 {
+				exp = Never
+			}
+			if viaRedirect {
+				tp := fmt.Sprintf("/nest/%s-t%d.json", c.Name("z"), lvl)
+				rr := c.res(host, np, v, lvl, exp, Redirect(302, tp))
+				rr.Tags["nest"] = "redirect"
+				rt := c.res(host, tp, v, lvl, exp, OK("application/json", Lit(body)))
+				rt.Tags["nest"] = "target"
+			} else {
+				c.res(host, np, v, lvl, exp, OK("application/json", Lit(body))).Tags["nest"] = "plain"
+			}
+			next = np
+		}
+		first = names[1]
+		c.res(host, p, v, 0, Must, OK("text/html", Lit(`<html><head><link rel="preload" href="`+first+`"></head><body>deep</body></html>`)))
 		return []QRow{c.row(v)}
 	default: // nested: page -> JSON asset -> media files named in it
 		p := "/" + c.Name("gallery") + "/index.html"
@@ -352,6 +443,7 @@ func GenCrawl(t *Tape, o CrawlOpts) *Scenario {
 	g := NewGen(t, "crawl", o.Prop)
 	c := &crawlGen{Gen: g, o: o}
 	cfg := &g.Sc.Cfg
+	c.cfg = cfg
 	cfg.Workers = 1 + c.N(4)
 	cfg.MaxConcurrentAssets = 1 + c.N(4)
 	cfg.MaxRetry = c.N(3)
